@@ -287,7 +287,17 @@ func (r *Reconciler) getPodAndNodeList(logger logr.Logger, daemonset *datadoghqv
 
 		return nodeList, podList, err
 	}
-	podList.Items = append(podList.Items, oldPodList.Items...)
+	// a pod of the old DaemonSet that also carries the ExtendedDaemonSet's name label is in both lists:
+	// keep it once, otherwise it is seen as its own duplicate and deleted outside the rolling-update limits
+	alreadyListed := make(map[string]bool, len(podList.Items))
+	for id := range podList.Items {
+		alreadyListed[podList.Items[id].Name] = true
+	}
+	for id := range oldPodList.Items {
+		if !alreadyListed[oldPodList.Items[id].Name] {
+			podList.Items = append(podList.Items, oldPodList.Items[id])
+		}
+	}
 
 	return nodeList, podList, nil
 }
